@@ -21,7 +21,7 @@ def step(coll, k, what):
 UNIT = Unit(
     name="U-CAPT",
     properties=["C08"],
-    rules=["attrs", ("strip", "common_defs::"), "let_chain", "entry_or_insert_with", "iter_any", "for_index"],
+    rules=["attrs", ("strip", "common_defs::"), "let_chain", "entry_or_insert_with", "iter_any", "for_index", "box_as_ref"],
     describe="lift::collect_captured: the capture set gains exactly the free variables of the expression (w.r.t. the locally bound names) "
              "that the defining scope binds, each with the scope's type; existing captures and the bound-name stack are left as they were — "
              "for all Lift expressions; terminates",
@@ -33,6 +33,7 @@ UNIT = Unit(
         Adt(file=L, kw="enum", name="LiftExpr", rules=["attrs", ("strip", "common_defs::")]),
         Adt(file=L, kw="struct", name="LiftArm", rules=["attrs"]),
         Raw(path="contracts/capt.shim.rs"),
+        Raw(path="contracts/box.shim.rs"),
         Fn(file=L, name="collect_captured", attrs="#[verifier::loop_isolation(false)]",
            obligation="captured' = captured + (free variables of expr not locally bound, restricted to the scope); bound stack restored",
            rewrites=[(re.compile(r"\bn == name\b"), "string_eq(n, name)", 1), ("let __k0 = name.clone();", "let __k0 = string_clone(name);"),
